@@ -268,6 +268,13 @@ func (w *c05World) runCase(t *testing.T, cs c05Case) ([]c05Der, []c05Obs) {
 			t.Fatal(err)
 		}
 		blockGas := eth.BlockGasLimit(ctx)
+		if blockGas == 0 {
+			if cp := c.App.GetConsensusParams(ctx); cp != nil && cp.Block != nil && cp.Block.MaxGas > 0 {
+				blockGas = uint64(cp.Block.MaxGas)
+			} else {
+				blockGas = 1 << 62 // no limit
+			}
+		}
 		gas := intrinsic
 		switch tx.GasMode {
 		case "below":
